@@ -4,9 +4,10 @@ import (
 	"bytes"
 	"encoding/json"
 	"fmt"
+	"strconv"
+	"strings"
 	"time"
 
-	"git.sr.ht/~mariusor/go-xsd-duration"
 	"github.com/go-ap/jsonld"
 )
 
@@ -97,13 +98,56 @@ func JSONWriteTimeProp(b *[]byte, n string, t time.Time) (notEmpty bool) {
 	return JSONWriteProp(b, n, tb)
 }
 
+// formatXSDDuration writes d as an xsd:duration using only the designators that have an exact length
+// (days, hours, minutes, seconds): months and years would have to be guessed at.
+func formatXSDDuration(d time.Duration) []byte {
+	if d == 0 {
+		return []byte("PT0S")
+	}
+	b := make([]byte, 0, 24)
+	u := uint64(d)
+	if d < 0 {
+		b = append(b, '-')
+		u = -u
+	}
+	b = append(b, 'P')
+	const day = uint64(24 * time.Hour)
+	if days := u / day; days > 0 {
+		b = strconv.AppendUint(b, days, 10)
+		b = append(b, 'D')
+		u %= day
+	}
+	if u == 0 {
+		return b
+	}
+	b = append(b, 'T')
+	if h := u / uint64(time.Hour); h > 0 {
+		b = strconv.AppendUint(b, h, 10)
+		b = append(b, 'H')
+		u %= uint64(time.Hour)
+	}
+	if m := u / uint64(time.Minute); m > 0 {
+		b = strconv.AppendUint(b, m, 10)
+		b = append(b, 'M')
+		u %= uint64(time.Minute)
+	}
+	if u > 0 {
+		b = strconv.AppendUint(b, u/uint64(time.Second), 10)
+		if ns := u % uint64(time.Second); ns > 0 {
+			frac := strconv.FormatUint(ns+uint64(time.Second), 10)[1:] // nine digits, leading zeros kept
+			b = append(b, '.')
+			b = append(b, strings.TrimRight(frac, "0")...)
+		}
+		b = append(b, 'S')
+	}
+	return b
+}
+
 func JSONWriteDurationProp(b *[]byte, n string, d time.Duration) (notEmpty bool) {
 	var tb []byte
-	if v, err := xsd.Marshal(d); err == nil {
-		JSONWrite(&tb, '"')
-		JSONWrite(&tb, v...)
-		JSONWrite(&tb, '"')
-	}
+	JSONWrite(&tb, '"')
+	JSONWrite(&tb, formatXSDDuration(d)...)
+	JSONWrite(&tb, '"')
 	return JSONWriteProp(b, n, tb)
 }
 
